@@ -299,7 +299,9 @@ class SymArray(ExtensionArray):
             return NotImplemented
         if any(isinstance(x, (pd.Series, pd.DataFrame, pd.Index)) for x in inputs):
             return NotImplemented
-        un = {np.isfinite: lambda: ~self.isna(), np.isnan: lambda: self.isna()}
+        def _fin():
+            return np.array([(not _isna(v)) and (isinstance(v, SReal) or bool(np.isfinite(v))) for v in self._d], dtype=bool)
+        un = {np.isfinite: _fin, np.isnan: lambda: self.isna()}
         if ufunc in un and len(inputs) == 1:
             return un[ufunc]()
         el = {
